@@ -1,4 +1,5 @@
 import AranyaV.Model.Module
+import AranyaV.Gen.NondetSites
 import AranyaV.Proofs.FactKey
 /-!
 # C28 — Compiled modules are deterministic and survive serialization  (**partial**)
@@ -265,6 +266,26 @@ theorem module_roundtrip_any_codec {A C F S E R W X I O : Type}
     ∃ m', dec (enc m) = some m' ∧ Machine.fromModule m' = Machine.fromModule m ∧
       exec (Machine.fromModule m') x i = exec (Machine.fromModule m) x i :=
   ⟨m, law, rfl, rfl⟩
+
+/-! ## where nondeterminism could enter the real compiler
+
+Determinism of the real compiler is not proved (it is not modelled).  What is pinned, on every run,
+is the complete list of places in the non-test code of the compiler / module / ast / lang crates
+where run-to-run variation could enter at all — hash-ordered containers and their iteration, clocks,
+threads, randomness, environment, pointer addresses — as regenerated from the current source
+(`AranyaV.Gen.NondetSites.sites`, by `tools/items/nondet_sites.py`) against the reviewed allow-list
+`tools/inventory/C28.json` (`reviewed`; every entry carries the reason why it cannot influence the
+emitted module: "lookup only, never iterated", "insertion-ordered", "identity test", …). -/
+
+/-- **no_unreviewed_nondeterminism**: the nondeterminism sources present in the source are exactly
+the reviewed ones (same sites, same multiplicities).  A new `HashMap`, a new iteration over one, a
+clock, … makes this fail, and `./check C28` then searches for a concrete policy text whose
+compilations differ. -/
+theorem no_unreviewed_nondeterminism :
+    AranyaV.Gen.NondetSites.sites = AranyaV.Gen.NondetSites.reviewed := by decide
+
+/-- the table is not empty: the compiler does use hash containers (all reviewed) -/
+example : AranyaV.Gen.NondetSites.sites ≠ [] := by decide
 
 /-! ### non-vacuity -/
 
